@@ -1153,15 +1153,27 @@ void MatrixPseudoinversion(matrix *m, matrix *m_inv)
   MatrixInversion(S, Sinv);
   DelMatrix(&S);
 
-  matrix *USinv;
-  NewMatrix(&USinv, U->row, Sinv->col);
-  MatrixDotProduct(U, Sinv, USinv);
-  DelMatrix(&U);
-  DelMatrix(&Sinv);
-  ResizeMatrix(m_inv, m->row, m->col);
-  MatrixDotProduct(USinv, V_T, m_inv);
+  /* A+ = V S^-1 U' (col x row) */
+  matrix *V;
+  NewMatrix(&V, V_T->col, V_T->row);
+  MatrixTranspose(V_T, V);
   DelMatrix(&V_T);
-  DelMatrix(&USinv);
+
+  matrix *VSinv;
+  NewMatrix(&VSinv, V->row, Sinv->col);
+  MatrixDotProduct(V, Sinv, VSinv);
+  DelMatrix(&V);
+  DelMatrix(&Sinv);
+
+  matrix *U_T;
+  NewMatrix(&U_T, U->col, U->row);
+  MatrixTranspose(U, U_T);
+  DelMatrix(&U);
+
+  ResizeMatrix(m_inv, m->col, m->row);
+  MatrixDotProduct(VSinv, U_T, m_inv);
+  DelMatrix(&U_T);
+  DelMatrix(&VSinv);
 }
 
 
